@@ -48,7 +48,7 @@ def call_both(real_fn, oracle_fn, expect=(IndexError, KeyError, ValueError, Type
 # ------------------------------------------------------------------ Deque
 
 def deque_scn(w, P):
-    x = Ctx(w, P, kinds=('int',), tags=False)
+    x = Ctx(w, P, kinds=('file',) if P.get('files') else ('int',), tags=False, **({'min_file_size': 0} if P.get('prelude') or P.get('files') else {}))
     # queue items only: increasing in-range keys, no expiry (a Deque never writes one)
     prev = None
     for rv in x.s.rowvars:
@@ -179,7 +179,7 @@ def ob_deque(w, P):
 
 def index_scn(w, P):
     N = P['N']
-    x = Ctx(w, P, kinds=('int', 'none') if P.get('nones') else ('int',), tags=False, key_lo=0, key_hi=N + 1)
+    x = Ctx(w, P, kinds=('int', 'none') if P.get('nones') else ('int',), tags=False, key_lo=0, key_hi=N + 1, **({'min_file_size': 0} if P.get('prelude') else {}))
     for rv in x.s.rowvars:
         assume(rv['expire_null'].z)
     contents = []
@@ -482,7 +482,10 @@ def ob_persist_kill(w, P):
     from obligations.cache_ops import Outcome
     L = w.L
     kind = P['kind']
-    P = dict(P, crash=True)
+    mode = P.get('mode', 'crash')
+    P = dict(P, **{mode: True})
+    if mode == 'fault':
+        P['only_fault'] = True
     if kind.startswith('deque'):
         x, contents = deque_scn(w, P)
         x.P = P
@@ -492,7 +495,7 @@ def ob_persist_kill(w, P):
         if bounded and maxlen == 0:
             assume(False)
         dq = L.persistent.Deque.fromcache(x.c, maxlen=maxlen)
-        v = x.s.v_int('val', -2 ** 40, 2 ** 40)
+        v = x.s.v_int('val', -2 ** 40, 2 ** 40) if not P.get('files') else b'new-file-value'
         od = collections.deque(contents, maxlen)
         before = list(od)
         try:
@@ -511,8 +514,12 @@ def ob_persist_kill(w, P):
         except Outcome as o:
             rec = list(L.persistent.Deque.fromcache(w.clone_handle(x.c), maxlen=None))
             cl = list(o.clauses)
-            cl.append(('C07,C11', 'after a kill a bounded Deque holds at most maxlen items', maxlen is None or len(rec) <= maxlen))
-            cl.append(('C07,C11', 'after a kill the Deque is the one before or the one after the interrupted call', Or(vals_eq(rec, before), vals_eq(rec, after))))
+            cl.append(('C07,C08,C11', 'after a kill / failed call a bounded Deque holds at most maxlen items', maxlen is None or len(rec) <= maxlen))
+            if P.get('files'):
+                # file-backed items: the generic clauses demand every committed row's value file; here only the shape
+                cl.append(('C07,C08,C11', 'after a kill / failed call the Deque has the length it had before or after the interrupted call', len(rec) in (len(before), len(after))))
+            else:
+                cl.append(('C07,C08,C11', 'after a kill / failed call the Deque is the one before or the one after the interrupted call', Or(vals_eq(rec, before), vals_eq(rec, after))))
             raise Outcome(cl)
         return x.result()
     x, contents = index_scn(w, P)
@@ -553,7 +560,7 @@ def ob_persist_kill(w, P):
     except Outcome as o:
         rec = list(L.persistent.Index.fromcache(w.clone_handle(x.c)).items())
         cl = list(o.clauses)
-        cl.append(('C07,C12', 'after a kill the Index is the one before or the one after the interrupted call', Or(vals_eq(rec, before), vals_eq(rec, after))))
+        cl.append(('C07,C08,C12', 'after a kill / failed call the Index is the one before or the one after the interrupted call', Or(vals_eq(rec, before), vals_eq(rec, after))))
         raise Outcome(cl)
     return x.result()
 
@@ -576,6 +583,15 @@ def kill_jobs(tier):
     out = []
     for kind in ('deque.append', 'deque.appendleft', 'deque.popleft', 'deque.pop', 'index.popitem', 'index.setdefault', 'index.setitem', 'index.pop'):
         out.append(dict(id='kill.%s' % kind, func='ob_persist_kill', params=dict(N=2, kind=kind, policy='none'), tags=['C07', 'C11', 'C12'], functions=DEQUE_F + INDEX_F, weight=40,
+                        must_reach=['crashed']))
+    for kind in ('deque.append', 'deque.appendleft', 'deque.popleft', 'index.setdefault', 'index.popitem', 'index.setitem'):
+        out.append(dict(id='fault.%s' % kind, func='ob_persist_kill', params=dict(N=2, kind=kind, policy='none', mode='fault'), tags=['C08', 'C11', 'C12'], functions=DEQUE_F + INDEX_F, weight=30,
+                        must_reach=['fault_escaped'], all_clauses=True))
+    for kind in ('deque.append', 'deque.appendleft', 'deque.popleft'):
+        out.append(dict(id='fault.%s.files' % kind, func='ob_persist_kill', params=dict(N=2, kind=kind, policy='none', mode='fault', files=True), tags=['C08', 'C11'], functions=DEQUE_F, weight=30,
+                        must_reach=['fault_escaped'], all_clauses=True))
+    for kind in ('deque.append', 'deque.appendleft', 'deque.popleft'):
+        out.append(dict(id='kill.%s.files' % kind, func='ob_persist_kill', params=dict(N=2, kind=kind, policy='none', files=True), tags=['C07', 'C11'], functions=DEQUE_F, weight=40,
                         must_reach=['crashed']))
     return out
 
@@ -693,6 +709,20 @@ def ob_persist_block(w, P):
         recovered = lambda: list(L.persistent.Index.fromcache(w.clone_handle(x.c)).items())
         ks = [pick_int(x, 'key%d' % i, 0, P['N'] + 1) for i in range(len(ops))]
     x.P = P
+    if P.get('prelude'):
+        # an ordinary committed write of a file-backed value through the same object before the block: what the object
+        # remembers about it must not leak into the block's own transaction (e.g. be removed when the block rolls back)
+        norm = lambda v_: v_ if is_num_like(v_) else 'FILE'
+        if kind == 'deque':
+            real.append(b'prelude-value')
+            ref.append(b'prelude-value')
+            dump = lambda d: [norm(e) for e in d]
+        else:
+            real[P['N'] + 3] = b'prelude-value'
+            ref[P['N'] + 3] = b'prelude-value'
+            dump = lambda d: [(k_, norm(v_)) for k_, v_ in d.items()]
+        x.T0 = x.s.snapshot()
+        flag('prelude')
     vs = [x.s.v_int('val%d' % i, -2 ** 30, 2 ** 30) for i in range(len(ops))]
     raise_at = len(ops) if P.get('crash') else pick_int(x, 'raise_at', 0, len(ops))  # == len(ops): the block completes
     before = dump(ref)
@@ -746,6 +776,8 @@ def ob_persist_block(w, P):
     log = [d for (_, k_, d) in w.log if k_ == 'sql']
     x.add(tag, 'one database transaction per block', sum(1 for d in log if d.startswith('BEGIN')) == 1 and sum(1 for d in log if d.startswith(('COMMIT', 'ROLLBACK'))) == 1)
     x.add(tag + ',C08', 'counters match', state.inv_table(x.T1))
+    if P.get('prelude'):
+        x.add(tag + ',C08', 'every item still has its value file and no file is left over', x.s.fs_inv(x.T1))
     return x.result()
 
 
@@ -763,6 +795,10 @@ def jobs(tier):
             out.append(dict(id='%s.block.%s.N=%d' % (kind, ops, N), func='ob_persist_block', params=dict(N=N, kind=kind, ops=ops, policy='none'), tags=['C06', t, 'C08'],
                             functions=(DEQUE_F if kind == 'deque' else INDEX_F) + ['persistent.Deque.transact', 'persistent.Index.transact', 'core.Cache.transact', 'core.Cache._transact'],
                             weight=N * 4, must_reach=['block_raised', 'block_committed']))
+    for kind, ops in (('deque', 'pop+appendleft'), ('deque', 'append+popleft'), ('index', 'pop+setitem'), ('index', 'popitem+setdefault'), ('index', 'delitem+setitem')):
+        t = 'C11' if kind == 'deque' else 'C12'
+        out.append(dict(id='%s.block.prelude.%s' % (kind, ops), func='ob_persist_block', params=dict(N=1, kind=kind, ops=ops, policy='none', prelude=True), tags=['C06', t, 'C08'],
+                        functions=(DEQUE_F if kind == 'deque' else INDEX_F) + ['core.Cache._transact'], weight=8, must_reach=['block_raised', 'prelude']))
     for kind, ops in PERSIST_BLOCKS:
         t = 'C11' if kind == 'deque' else 'C12'
         out.append(dict(id='%s.block.kill.%s' % (kind, ops), func='ob_persist_block', params=dict(N=2 if kind == 'deque' or tier != 'quick' else 1, kind=kind, ops=ops, policy='none', crash=True), tags=['C07', 'C06', t],
